@@ -3,7 +3,7 @@
 # store it under /verif/seeded/<name>/ and report which checks catch it.
 set -u
 id=$1; name=${2:-$1}
-wt=/tmp/seed-$id
+wt=${WT:-/tmp/seed-$id}
 out=/verif/seeded/$name
 mkdir -p $out
 if [ -d $wt ]; then
